@@ -357,9 +357,15 @@ func (d *sdriver) ops(w *world.World, depth int, path []string) []engine.Op {
 				}
 			}
 			for _, to := range d.accts {
-				for _, cls := range []string{"1", "half", "all", "all+1"} {
+				for _, cls := range []string{"1", "half", "all", "all+1", "half@same-time"} {
 					from, to, cls, dn := from, to, cls, dn
 					add(fmt.Sprintf("redeem(%s,%s>%s,%s)", dn, from.name, to.name, cls), func(p []string, res *engine.Result) string {
+						// a redeem normally happens in a later block than the liquidation: advance the
+						// block time by one second first (the same-time variant keeps it)
+						if strings.HasSuffix(cls, "@same-time") {
+							return d.redeem(dn, from, to, strings.TrimSuffix(cls, "@same-time"), p, res)
+						}
+						d.setTime(w.Header.Time.Unix() + 1)
 						return d.redeem(dn, from, to, cls, p, res)
 					})
 				}
